@@ -318,6 +318,15 @@ func run[V any](r *engine.Rec, c *cfg[V]) {
 			opnd, content := operand(c, p.S, set, m)
 			exp := model(p, m, content)
 			_, o := apply(p, set, opnd)
+			rt.Protect(fuel, func() { // observe after every replayed step (populates anything the set caches)
+				set.AsArray()
+				set.GetSize()
+				it := set.GetIterator()
+				for it.HasNext() {
+					it.GetNext()
+				}
+				set.ContainsValue(c.universe[0])
+			})
 			if !o.Panicked {
 				m = exp.m
 			}
